@@ -495,3 +495,222 @@ Qed.
 
 Lemma reach_inv prune n acts s : run prune (init n) acts = Some s -> Inv s.
 Proof. apply inv_run, inv_init. Qed.
+
+(* ---- C14: mutual exclusion ---------------------------------------------------------------- *)
+Lemma In_nonempty {A} (l : list A) x : In x l -> l <> [].
+Proof. intros H Z. rewrite Z in H. destruct H. Qed.
+
+Lemma holder_is_head s p q e : Inv s -> nth_error (heap s) p = Some q -> holder_in s q e ->
+  cur s = Some p /\ exists tl, ents q = e :: tl.
+Proof.
+  intros I E [Hin Hh]. split.
+  - eapply nonempty_is_cur; eauto. eapply In_nonempty; eauto.
+  - eapply ready_ok_head; eauto; [eapply i_rdy; eauto|eapply i_hrdy; eauto].
+Qed.
+
+Theorem lock_mutex : forall prune n acts s, run prune (init n) acts = Some s ->
+  forall p1 q1 e1 p2 q2 e2,
+    nth_error (heap s) p1 = Some q1 -> nth_error (heap s) p2 = Some q2 ->
+    holder_in s q1 e1 -> holder_in s q2 e2 ->
+    p1 = p2 /\ e1 = e2 /\ cur s = Some p1 /\ exists tl, ents q1 = e1 :: tl.
+Proof.
+  intros prune n acts s R p1 q1 e1 p2 q2 e2 E1 E2 H1 H2.
+  pose proof (reach_inv _ _ _ _ R) as I.
+  destruct (holder_is_head s p1 q1 e1 I E1 H1) as [C1 [t1 Q1]].
+  destruct (holder_is_head s p2 q2 e2 I E2 H2) as [C2 [t2 Q2]].
+  rewrite C1 in C2. inversion C2; subst p2. rewrite E1 in E2. inversion E2; subst q2.
+  rewrite Q1 in Q2. inversion Q2; subst. repeat split; eauto.
+Qed.
+
+Example lock_mutex_nonvacuous :
+  exists s q e, run true (init 3) [AStep 0; AStep 1; AStep 0; AStep 1; AStep 2; AStep 2; AStep 0] = Some s /\
+                nth_error (heap s) 0 = Some q /\ holder_in s q e /\ length (ents q) = 3.
+Proof.
+  eexists. eexists. eexists. split; [vm_compute; reflexivity|].
+  split; [reflexivity|]. split; [split; [left; reflexivity|reflexivity]|reflexivity].
+Qed.
+
+(* ---- C14: the head of a non-empty queue is ready, and enabled or holding ------------------- *)
+Theorem lock_head_is_ready : forall prune n acts s, run prune (init n) acts = Some s ->
+  forall p q e tl, nth_error (heap s) p = Some q -> ents q = e :: tl ->
+    cur s = Some p /\ e_ready e = true /\
+    ((nth_error (thr s) (e_tok e) = Some (L2 p) /\ exists s', step prune s (AStep (e_tok e)) = Some s') \/
+     (nth_error (thr s) (e_tok e) = Some (H p) /\ exists s', step prune s (ARemove p (e_tok e)) = Some s')).
+Proof.
+  intros prune n acts s R p q e tl E Q. pose proof (reach_inv _ _ _ _ R) as I.
+  assert (Hin : In e (ents q)) by (rewrite Q; left; reflexivity).
+  pose proof (i_rdy s I p q E) as Rd. rewrite Q in Rd. destruct Rd as [Re _].
+  split; [eapply nonempty_is_cur; eauto; rewrite Q; discriminate|]. split; [assumption|].
+  destruct (i_thr s I p q e E Hin) as [T|T]; [left|right]; (split; [assumption|]).
+  - simpl. rewrite T, E, Q. simpl. rewrite Nat.eqb_refl, Re. eexists; reflexivity.
+  - simpl. unfold do_remove. rewrite E. destruct (q_remove prune (e_tok e) q). eexists; reflexivity.
+Qed.
+
+(* ---- C14: FIFO --------------------------------------------------------------------------- *)
+(* [glog] lists the enqueue numbers of the granted callers, newest first: grants happen in
+   strictly increasing enqueue order, and every caller still waiting in a queue was enqueued
+   after every caller granted so far. *)
+Theorem lock_fifo : forall prune n acts s, run prune (init n) acts = Some s ->
+  StronglySorted gt (glog s) /\
+  forall p q e g, nth_error (heap s) p = Some q -> In e (ents q) ->
+                  nth_error (thr s) (e_tok e) = Some (L2 p) -> In g (glog s) -> g < e_seq e.
+Proof.
+  intros prune n acts s R. pose proof (reach_inv _ _ _ _ R) as I. split; [apply (i_glog s I)|].
+  intros p q e g E Hin T Hg. eapply i_wait; eauto. rewrite T. reflexivity.
+Qed.
+
+Example lock_fifo_nonvacuous :
+  exists s, run true (init 3) [AStep 0; AStep 1; AStep 0; AStep 1; AStep 2; AStep 2; AStep 0;
+                               ARemove 0 0; AStep 1; ACancel 2; ARemove 0 1] = Some s /\
+            glog s = [1; 0] /\ cur s = None.
+Proof. eexists. split; [vm_compute; reflexivity|]. split; reflexivity. Qed.
+
+(* ---- C14: release only by the owner's id or its TTL -------------------------------------- *)
+Lemma removed_keeps id : forall l e, In e l -> e_tok e <> id ->
+  exists e', In e' (removed id l) /\ e_tok e' = e_tok e /\ e_seq e' = e_seq e.
+Proof.
+  intros l e Hin N.
+  assert (K : In e (rm_first id l)).
+  { induction l as [|a t IH]; simpl in *; [tauto|]. destruct (Nat.eqb_spec (e_tok a) id) as [Z|Z].
+    - destruct Hin as [<-|Hin]; [congruence|assumption].
+    - destruct Hin as [<-|Hin]; [left; reflexivity|right; auto]. }
+  unfold removed. destruct (is_head id l); [|eauto].
+  destruct (rm_first id l) as [|a t]; simpl in *; [tauto|]. destruct K as [<-|K].
+  - eexists. split; [left; reflexivity|]. simpl. auto.
+  - exists e. auto.
+Qed.
+
+Lemma do_remove_keeps prune s p id s' f : do_remove prune s p id = Some (s', f) ->
+  forall p0 q0 e0, nth_error (heap s) p0 = Some q0 -> In e0 (ents q0) -> e_tok e0 <> id ->
+  exists q1 e1, nth_error (heap s') p0 = Some q1 /\ In e1 (ents q1) /\ e_tok e1 = e_tok e0 /\ e_seq e1 = e_seq e0.
+Proof.
+  intros E p0 q0 e0 E0 Hin N. unfold do_remove in E.
+  destruct (nth_error (heap s) p) as [q|] eqn:Eq; [|discriminate].
+  unfold q_remove in E. destruct (has_tok id (ents q)) eqn:Eh; inversion E; subst s' f; clear E; simpl.
+  - destruct (Nat.eq_dec p0 p) as [->|Np].
+    + rewrite Eq in E0. inversion E0; subst q0.
+      destruct (removed_keeps id _ _ Hin N) as [e' [K1 [K2 K3]]].
+      eexists. exists e'. split; [eapply upd_nth_same; eauto|]. simpl. unfold removed in K1.
+      repeat split; assumption.
+    + exists q0, e0. rewrite upd_nth_other by congruence. auto.
+  - rewrite (upd_id _ _ _ Eq). exists q0, e0. auto.
+Qed.
+
+(* an Unlock / watchdog removal with any other id leaves the holder queued and holding;
+   a removal of an id that is not queued in that object changes nothing at all *)
+Theorem lock_release_only_by_owner_or_ttl : forall prune n acts s, run prune (init n) acts = Some s ->
+  (forall p0 q0 e p id s', nth_error (heap s) p0 = Some q0 -> holder_in s q0 e -> e_tok e <> id ->
+     step prune s (ARemove p id) = Some s' ->
+     exists q1 e1, nth_error (heap s') p0 = Some q1 /\ holder_in s' q1 e1 /\ e_tok e1 = e_tok e) /\
+  (forall p q id, nth_error (heap s) p = Some q -> has_tok id (ents q) = false ->
+     do_remove prune s p id = Some (s, false)).
+Proof.
+  intros prune n acts s R. split.
+  - intros p0 q0 e p id s' E0 [Hin Hh] N St. simpl in St.
+    destruct (do_remove prune s p id) as [[s1 f]|] eqn:Ed; [|discriminate]. inversion St; subst s1.
+    destruct (do_remove_keeps _ _ _ _ _ _ Ed p0 q0 e E0 Hin N) as [q1 [e1 [K1 [K2 [K3 _]]]]].
+    exists q1, e1. split; [assumption|]. split; [|assumption]. split; [assumption|].
+    pose proof (reach_inv _ _ _ _ R) as I. destruct (inv_do_remove _ _ _ _ _ _ I Ed) as [_ T].
+    rewrite T, K3. assumption.
+  - intros p q id E Hh. unfold do_remove, q_remove. rewrite E, Hh. simpl.
+    rewrite (upd_id _ _ _ E). destruct s; reflexivity.
+Qed.
+
+(* ids are tokens = positions in the thread list: a caller that has been granted or cancelled
+   never enqueues again, so a stale id is never queued again *)
+Theorem lock_stale_id_never_requeued : forall prune n acts s, run prune (init n) acts = Some s ->
+  forall p q e, nth_error (heap s) p = Some q -> In e (ents q) ->
+    nth_error (thr s) (e_tok e) = Some (L2 p) \/ nth_error (thr s) (e_tok e) = Some (H p).
+Proof. intros prune n acts s R p q e E Hin. exact (i_thr s (reach_inv _ _ _ _ R) p q e E Hin). Qed.
+
+Theorem gw_ttl_floor : forall floor ttl, (floor <= gw_ttl floor ttl)%Z.
+Proof. intros. unfold gw_ttl. destruct (ttl <=? floor)%Z eqn:E; lia. Qed.
+
+(* ---- C14: no waiter is left blocked (traces in which Unlock uses only ids that Lock returned
+        or ids that no caller has) --------------------------------------------------------------- *)
+Definition Inv2 (s : st) : Prop :=
+  forall t p, nth_error (thr s) t = Some (L2 p) ->
+  exists q e, nth_error (heap s) p = Some q /\ In e (ents q) /\ e_tok e = t.
+
+Lemma inv2_init n : Inv2 (init n).
+Proof.
+  intros t p E. simpl in E. exfalso. apply nth_error_In in E. apply repeat_spec in E. discriminate.
+Qed.
+
+Lemma inv2_step prune s a s' : Inv s -> Inv2 s -> valid_action s a = true ->
+  step prune s a = Some s' -> Inv2 s'.
+Proof.
+  intros I J V E. destruct a as [t|t|p id]; simpl in E.
+  - destruct (nth_error (thr s) t) as [c|] eqn:Et; [|discriminate].
+    destruct c as [|p|p|p|]; try discriminate.
+    + destruct (cur s) as [p|] eqn:Ec; inversion E; subst; clear E; intros t0 p0 T; simpl in *;
+        rewrite upd_nth_cases, Et in T; destruct (Nat.eqb t0 t); try discriminate.
+      * apply J; assumption.
+      * destruct (J t0 p0 T) as [q [e [Eq R]]]. exists q, e. split; [|assumption].
+        rewrite nth_error_app1; [assumption|eapply nth_some_lt; eauto].
+    + destruct (nth_error (heap s) p) as [q|] eqn:Eq; [|discriminate].
+      destruct (retired q) eqn:Er; inversion E; subst; clear E; intros t0 p0 T; simpl in *;
+        rewrite upd_nth_cases, Et in T; destruct (Nat.eqb_spec t0 t) as [->|Nt]; try discriminate.
+      * apply J; assumption.
+      * inversion T; subst p0. eexists. eexists. split; [eapply upd_nth_same; eauto|].
+        simpl. split; [apply in_app_iff; right; left; reflexivity|reflexivity].
+      * destruct (J t0 p0 T) as [q0 [e0 [E0 [Hin Z]]]].
+        destruct (Nat.eq_dec p0 p) as [->|Np].
+        -- rewrite Eq in E0. inversion E0; subst q0. eexists. exists e0.
+           split; [eapply upd_nth_same; eauto|]. simpl. split; [apply in_app_iff; left; assumption|assumption].
+        -- exists q0, e0. rewrite upd_nth_other by congruence. auto.
+    + destruct (nth_error (heap s) p) as [q|] eqn:Eq; [|discriminate].
+      destruct (find_entry t (ents q)) as [e|]; [|discriminate].
+      destruct (e_ready e); [|discriminate]. inversion E; subst; clear E. intros t0 p0 T; simpl in *.
+      rewrite upd_nth_cases, Et in T. destruct (Nat.eqb t0 t); [discriminate|]. apply J; assumption.
+  - destruct (nth_error (thr s) t) as [c|] eqn:Et; [|discriminate].
+    destruct c as [|p|p|p|]; try discriminate.
+    destruct (do_remove prune s p t) as [[s1 f]|] eqn:Ed; [|discriminate].
+    inversion E; subst; clear E. destruct (inv_do_remove _ _ _ _ _ _ I Ed) as [_ T1].
+    intros t0 p0 T. simpl in T. rewrite T1, upd_nth_cases, Et in T.
+    destruct (Nat.eqb_spec t0 t) as [->|Nt]; [discriminate|].
+    destruct (J t0 p0 T) as [q0 [e0 [E0 [Hin Z]]]].
+    destruct (do_remove_keeps _ _ _ _ _ _ Ed p0 q0 e0 E0 Hin ltac:(congruence)) as [q1 [e1 [K1 [K2 [K3 _]]]]].
+    exists q1, e1. simpl. repeat split; congruence.
+  - destruct (do_remove prune s p id) as [[s1 f]|] eqn:Ed; [|discriminate].
+    inversion E; subst; clear E. destruct (inv_do_remove _ _ _ _ _ _ I Ed) as [_ T1].
+    intros t0 p0 T. rewrite T1 in T. simpl in V. unfold known_id in V.
+    assert (Nt : t0 <> id). { intros ->. rewrite T in V. discriminate. }
+    destruct (J t0 p0 T) as [q0 [e0 [E0 [Hin Z]]]].
+    destruct (do_remove_keeps _ _ _ _ _ _ Ed p0 q0 e0 E0 Hin ltac:(congruence)) as [q1 [e1 [K1 [K2 [K3 _]]]]].
+    exists q1, e1. repeat split; congruence.
+Qed.
+
+Lemma inv2_run prune : forall acts s s', Inv s -> Inv2 s -> valid_trace prune s acts = true ->
+  run prune s acts = Some s' -> Inv2 s'.
+Proof.
+  induction acts as [|a r IH]; intros s s' I J V E; simpl in *.
+  - inversion E; subst; assumption.
+  - apply andb_true_iff in V. destruct V as [Va Vr].
+    destruct (step prune s a) as [s1|] eqn:Es; [|discriminate].
+    eapply IH; [eapply inv_step; eauto|eapply inv2_step; eauto|assumption|assumption].
+Qed.
+
+(* whenever some caller waits in the select, the head of that very queue is an enabled waiter
+   or a holder whose removal (Unlock with its id, or its TTL) is enabled *)
+Theorem lock_no_stuck_waiter : forall prune n acts s,
+  valid_trace prune (init n) acts = true -> run prune (init n) acts = Some s ->
+  forall t p, nth_error (thr s) t = Some (L2 p) ->
+  cur s = Some p /\
+  exists q e tl, nth_error (heap s) p = Some q /\ ents q = e :: tl /\ e_ready e = true /\
+    ((nth_error (thr s) (e_tok e) = Some (L2 p) /\ exists s', step prune s (AStep (e_tok e)) = Some s') \/
+     (nth_error (thr s) (e_tok e) = Some (H p) /\ exists s', step prune s (ARemove p (e_tok e)) = Some s')).
+Proof.
+  intros prune n acts s V R t p T.
+  pose proof (inv2_run prune acts _ _ (inv_init n) (inv2_init n) V R) as J.
+  destruct (J t p T) as [q [e0 [Eq [Hin _]]]].
+  destruct (ents q) as [|e tl] eqn:Q; [destruct Hin|].
+  destruct (lock_head_is_ready prune n acts s R p q e tl Eq Q) as [C [Re D]].
+  split; [assumption|]. exists q, e, tl. auto.
+Qed.
+
+Example lock_no_stuck_nonvacuous :
+  valid_trace true (init 2) [AStep 0; AStep 0; AStep 1; AStep 1; AStep 0; ARemove 0 0] = true /\
+  exists s, run true (init 2) [AStep 0; AStep 0; AStep 1; AStep 1; AStep 0; ARemove 0 0] = Some s /\
+            nth_error (thr s) 1 = Some (L2 0).
+Proof. split; [vm_compute; reflexivity|]. eexists. split; [vm_compute; reflexivity|reflexivity]. Qed.
